@@ -145,8 +145,8 @@ Print Assumptions C02_aug_ops_nonvacuous.
 
 (* ================================================================== 3. writing *)
 
-(* reachable: parsed from any derivation, +s -s ~c, closed under & | ~ &= |= , the left / right setters, and
-   having been written before.  The tokens that HalfSpace._update_values + GeometryTree.format produce are a
+(* reachable: parsed from any derivation, +s -s ~c, closed under & | ~ &= |= , the left / right / operator
+   setters, and having been written before.  The tokens that HalfSpace._update_values + GeometryTree.format produce are a
    geometry by MCNP's rules and denote the Boolean function of the object. *)
 Theorem C02_write : forall h, reachable h ->
   exists e, GDenotes (written_tokens h) e /\ beq e (sem_hs h).
@@ -193,11 +193,9 @@ Example C02_unedited_nonvacuous : Derives LE ex_tokens ex_tree /\ cell_tokens (p
 Proof. split; [exact ex_derives | exact ex_unedited]. Qed.
 Print Assumptions C02_unedited_nonvacuous.
 
-(* the wire entry the harness drives (operator programs on a parsed cell or from scratch): every program without
-   "operator = INTERSECTION" writes a text that means what the resulting object means *)
+(* the wire entry the harness drives (operator programs on a parsed cell or from scratch): every program that
+   runs writes a text that means what the resulting object means *)
 Theorem C02_programs : forall base p h toks,
-  match base with Some t => exists ts, Derives LE ts t | None => True end ->
-  forallb instr_ok p = true ->
   run_case base p = inr (h, toks) ->
   exists e, GDenotes toks e /\ beq e (sem_hs h).
 Proof. exact run_case_correct. Qed.
@@ -213,24 +211,12 @@ Print Assumptions C02_programs_nonvacuous.
 
 (* ================================================================== 4. the HalfSpace.operator setter *)
 
-(* not one of the operators the property lists, but part of the API: with it the statement is FALSE of the
-   current code.  "1:2:3" read, geometry.operator = INTERSECTION: the object is (1:2) 3, the text "1 : 2 3". *)
-Theorem C02_write_setop_refuted :
-  exists ts t h, Derives LE ts t /\ hs_set_op (parse_input_node t) OInter = Some h /\
-    forall e, GDenotes (written_tokens h) e -> ~ beq e (sem_hs h).
-Proof. exact write_setop_refuted. Qed.
-Print Assumptions C02_write_setop_refuted.
-
-(* the exact side condition: setting UNION is always fine, setting INTERSECTION when no child that keeps its
-   syntax node is a union without parentheses of its own *)
-Theorem C02_write_setop_partial : forall a op h, inv a = true -> hs_set_op a op = Some h ->
-  (op = OInter -> setop_safe a = true) ->
-  exists e, GDenotes (written_tokens h) e /\ beq e (sem_hs h).
-Proof. exact write_setop_partial. Qed.
-Print Assumptions C02_write_setop_partial.
-
-Example C02_write_setop_partial_nonvacuous :
-  exists ts t h, Derives LE ts t /\ hs_set_op (parse_input_node t) OInter = Some h /\
-                 setop_safe (parse_input_node t) = true /\ is_union (parse_input_node t) = true.
-Proof. exact ex_setop_safe. Qed.
-Print Assumptions C02_write_setop_partial_nonvacuous.
+(* not one of the operators the property lists, but part of the API and covered by C02_write (R_set_op):
+   "1:2:3" read, geometry.operator = INTERSECTION: the object is (1:2) 3 and so is the text.
+   (Before the repair of _child_node the text was "1 : 2 3"; the check reported it.) *)
+Example C02_write_setop_nonvacuous :
+  exists t h, Derives LE w123 t /\ hs_set_op (parse_input_node t) OInter = Some h /\
+    sem_hs h = BAnd (BOr (BSurf true 1) (BSurf true 2)) (BSurf true 3) /\
+    written_tokens h = [TLParen; TLeaf true 1; TColon; TLeaf true 2; TRParen; TLeaf true 3]%Z.
+Proof. exact ex_setop. Qed.
+Print Assumptions C02_write_setop_nonvacuous.
